@@ -94,7 +94,9 @@ InitStore(c) ==
 (* Reading the store                                                       *)
 (***************************************************************************)
 Exists(St, p) == St.pods[p].ph \notin {"None", "Gone"}
-Live(St, p) == St.pods[p].ph \in {"Pending", "Running"}
+\* "Terminating" = phase Running with a deletion timestamp (graceful termination: the containers still run)
+Live(St, p) == St.pods[p].ph \in {"Pending", "Running", "Terminating"}
+RunningPh(St, p) == St.pods[p].ph \in {"Running", "Terminating"}
 HasLab(St, p, g) == St.pods[p].lab[g] = 1
 \* pods returned by the three kinds of list the reservation service uses
 PlainOf(St, g) == {p \in Pods : Exists(St, p) /\ UsesPlainLabel(p) /\ HasLab(St, p, g)}
@@ -211,11 +213,11 @@ SuccOf(a, St, l, m) ==
          Call(a, l, "list", "Pod", g, "", St, St,
               One([l EXCEPT !.pc = "SG_l2", !.r1 = IF St.res[g].n > 0 THEN 1 ELSE 0,
                             !.live1 = {q \in PlainOf(St, g) : Live(St, q)},
-                            !.run1 = {q \in PlainOf(St, g) : St.pods[q].ph = "Running"}], m),
+                            !.run1 = {q \in PlainOf(St, g) : RunningPh(St, q)}], m),
               GroupDone(a, l, m, 1))
     [] l.pc = "SG_l2" ->
          LET live2 == {q \in MultiOf(St, g) : Live(St, q)}
-             run2 == {q \in MultiOf(St, g) : St.pods[q].ph = "Running"}
+             run2 == {q \in MultiOf(St, g) : RunningPh(St, q)}
              live == l.live1 \cup live2
              dels == PodSeq(l.run1) \o PodSeq(run2)
          IN Call(a, l, "list", "PodMulti", g, "", St, St,
@@ -229,7 +231,7 @@ SuccOf(a, St, l, m) ==
     [] l.pc = "SG_delpod" ->
          LET q == Head(l.dels)
          IN Call(a, l, "delete", "Pod", 0, "", St,
-                 IF Exists(St, q) THEN [St EXCEPT !.pods[q] = GonePod] ELSE St,
+                 IF Exists(St, q) /\ St.pods[q].ph # "Terminating" THEN [St EXCEPT !.pods[q] = GonePod] ELSE St,
                  IF ~Exists(St, q) THEN GroupDone(a, l, m, 1)
                  ELSE IF Len(l.dels) = 1 THEN GroupDone(a, l, m, 0) ELSE One([l EXCEPT !.dels = Tail(l.dels)], m),
                  GroupDone(a, l, m, 1))
@@ -434,7 +436,7 @@ C17_Iff == ctl.check = 1 => \A g \in Groups : ResIff(S, g)
 \* bind whose rollback ran a complete SyncForNode (nothing else in flight): for the groups concerned
 C17_IffAfterEvent == \A g \in ctl.evgroups : ResIff(S, g)
 C17_NoOrphanConsumer ==
-  ctl.check = 1 => \A p \in Pods : \A g \in Groups : (S.pods[p].ph = "Running" /\ HasLab(S, p, g)) => S.res[g].n >= 1
+  ctl.check = 1 => \A p \in Pods : \A g \in Groups : (RunningPh(S, p) /\ HasLab(S, p, g)) => S.res[g].n >= 1
 
 (***************************************************************************)
 (* Observation state                                                        *)
@@ -495,7 +497,7 @@ TypeOK ==
   /\ cfg \in Configs
   /\ \A g \in Groups : mutex[g] \in 0..4 /\ S.res[g].n \in 0..3
   /\ \A a \in Actors : L[a].t \in {"idle", "rec", "sync", "syncnode", "hdl"}
-  /\ \A p \in Pods : S.pods[p].ph \in {"None", "Gone", "Pending", "Running", "Succeeded"}
+  /\ \A p \in Pods : S.pods[p].ph \in {"None", "Gone", "Pending", "Running", "Terminating", "Succeeded"}
 
 Init ==
   /\ cfg \in Configs
@@ -560,6 +562,15 @@ EnvPodRunning(p) ==
   /\ S' = [S EXCEPT !.pods[p].ph = "Running"]
   /\ ctl' = [ctl EXCEPT !.nenv = ctl.nenv + 1, !.check = 0, !.final = 0, !.evgroups = {}]
   /\ hist' = Rec([n |-> "env", e |-> "PodRunning", p |-> p, g |-> 0])
+  /\ UNCHANGED <<cfg, L, mutex>>
+
+\* graceful deletion: the pod gets a deletion timestamp and keeps running until PodDeleted; the binder's pod
+\* controller does nothing on this update (it is not a completion)
+EnvPodTerminating(p) ==
+  /\ S.pods[p].ph = "Running"
+  /\ S' = [S EXCEPT !.pods[p].ph = "Terminating"]
+  /\ ctl' = [ctl EXCEPT !.nenv = ctl.nenv + 1, !.check = 0, !.final = 0, !.evgroups = {}]
+  /\ hist' = Rec([n |-> "env", e |-> "PodTerminating", p |-> p, g |-> 0])
   /\ UNCHANGED <<cfg, L, mutex>>
 
 \* the reservation pod of group g reports its index by itself (only outside ReserveGpuDevice, see harness)
@@ -629,6 +640,7 @@ C17Next ==
            /\ \E e \in {"PodDeleted", "PodCompleted", "BRDeleted"}, p \in Pods : StartHdl(e, p)
   \/ /\ ctl.nenv < MaxEnv
      /\ \/ \E p \in Pods : EnvPodRunning(p)
+        \/ \E p \in Pods : EnvPodTerminating(p)
         \/ \E g \in Groups : EnvAnnotate(g)
 
 Next == IF Mode = "c11" THEN C11Next ELSE C17Next
